@@ -20,5 +20,11 @@ HeadersB == {Hd(n, v, FALSE) : n \in 1..3, v \in {1, 2}} \cup {Hd(4, 1, FALSE), 
 ExportB == ((Cap(t) = 8 /\ Cap(t') = 16) \/ (Cap(t) = 16 /\ Len(t'.slots) <= Len(t.slots) /\ t'.slots # t.slots))
            => PrintT(ToJson([names |-> NameHash, h |-> hist']))
 
+HeadersBq == {Hd(n, v, FALSE) : n \in 1..3, v \in {1, 2}} \cup {Hd(4, 1, FALSE)}
+\* quick tier: the same edges, shortest histories only
+ExportBq == (Len(hist') <= 10 /\ ((Cap(t) = 8 /\ Cap(t') = 16 /\ Len(hist') <= 8)
+                                 \/ (Cap(t) = 16 /\ Len(t'.slots) <= Len(t.slots) /\ t'.slots # t.slots)))
+            => PrintT(ToJson([names |-> NameHash, h |-> hist']))
+
 Export == PrintT(ToJson([names |-> NameHash, h |-> hist']))
 =============================================================================
